@@ -104,6 +104,20 @@ def _b_progress_auto(s):
     return _b_progress(s, auto=True)
 
 
+def _b_two_consoles(s):
+    """two consoles (widths 30 and 40) on one file, and ONE renderable object shared by both threads"""
+    from rich.console import Console
+    from rich.table import Table
+    f = sched.RecFile()
+    c = _console(f)
+    c2 = Console(file=f, width=34, height=H, force_terminal=True, legacy_windows=False, _environ={},
+                 color_system=None, get_time=lambda: 0.0)
+    t = Table(title="TT", expand=True)
+    t.add_column("h")
+    t.add_row("x")
+    return {"f": f, "c": c, "c2": c2, "table": t, "got": {}}
+
+
 def _b_live_not_started(s):
     from rich.live import Live
     f = sched.RecFile()
@@ -140,6 +154,8 @@ OPS = {
     "upd_tall": lambda e: e["live"].update("G1\nG2\nG3", refresh=True),
     "stop": lambda e: e["live"].stop(),
     "pstop": lambda e: e["p"].stop(),
+    "print_table_c1": lambda e: e["c"].print(e["table"]),
+    "print_table_c2": lambda e: e["c2"].print(e["table"]),
     "start_refresh": lambda e: (e["live"].start(), e["live"].refresh()),
     "start": lambda e: e["live"].start(),
     "refresh": lambda e: e["live"].refresh(),
@@ -172,6 +188,9 @@ HARNESSES = {
     "H14": (_b_progress_auto, {"A": ["printP", "pstop"]}, "live", 2),
     # two threads start the same, not yet started display
     "H15": (_b_live_not_started, {"A": ["start_refresh"], "B": ["start_refresh"]}, "live", 0),
+    # one renderable object rendered by two threads for two different widths (rendering must not keep per-render
+    # state on the renderable): needs scheduling points between the steps of Console.render -> "line" granularity
+    "H16": (_b_two_consoles, {"A": ["print_table_c1"], "B": ["print_table_c2"]}, "plain", 0),
 }
 
 
@@ -254,8 +273,8 @@ def sequential_reference(hid):
 # (harness, granularity, bound) per tier; completed in this order
 PLAN = {
     # bound 99 = no preemption bound at all: every interleaving of the lock / event / thread / write operations
-    "quick": [(h, "coarse", 2) for h in HARNESSES] + [(h, "shared", 1) for h in HARNESSES if h != "H7x"]
-             + [(h, "coarse", 99) for h in ("H1", "H2")],
+    "quick": [(h, "coarse", 2) for h in HARNESSES] + [(h, "shared", 1) for h in HARNESSES if h not in ("H7x", "H16")]
+             + [(h, "coarse", 99) for h in ("H1", "H2")] + [("H16", "line", 1)],
     "thorough": [(h, "coarse", 3) for h in HARNESSES] + [(h, "line", 1) for h in HARNESSES]
                 + [(h, "shared", 2) for h in ("H1", "H2", "H9", "H4", "H11", "H13")]
                 + [(h, "coarse", 99) for h in ("H1", "H2", "H11", "H13", "H4", "H9", "H15", "H12")],
@@ -425,7 +444,7 @@ def describe(tier, seed, res):
     return {
         "rule": "per harness (H1 print||print+record, H2 print||capture, H3 log||print||export, H4/H5g/H5s live print||update "
                 "same/taller/shorter, H6 live auto-refresh thread, H7/H7x progress advance+refresh||print(||add_task), H8a/H8b "
-                "print||stop(/start/refresh), H9 live print||print, H10 transient print||stop, H11/H12 refresh||update shorter/taller, H13 update||update, H14 progress auto-refresh thread print;stop, H15 start||start) every schedule with <= bound preemptions at the stated granularity "
+                "print||stop(/start/refresh), H9 live print||print, H10 transient print||stop, H11/H12 refresh||update shorter/taller, H13 update||update, H14 progress auto-refresh thread print;stop, H15 start||start, H16 one Table object printed by two threads on two consoles of different width) every schedule with <= bound preemptions at the stated granularity "
                 "(coarse = lock/event/thread/write operations; shared = + every line of the whitelisted modules except "
                 "per-call-only console functions, bytecodes in the locked read-modify-write functions; line = every line). "
                 "An execution is one complete schedule; non-trivial = at least two threads wrote to the file or a violation; "
